@@ -22,6 +22,14 @@ func MonitorFor(prop string) Monitor {
 		return MonC05{}
 	case "C06":
 		return MonC06{}
+	case "C11":
+		return MonC11{}
+	case "C14":
+		return MonC14{}
+	case "C15":
+		return MonC15{}
+	case "C08":
+		return MonMulti{Prop: "C08", Mons: []Monitor{MonC01{}, MonC02{}, MonC05{}, MonC06{}}}
 	}
 	return nil
 }
@@ -30,6 +38,13 @@ func MonitorFor(prop string) Monitor {
 func Registry(prop, tier string) []UniverseDef {
 	var out []UniverseDef
 	add := func(u func() *Universe, name string) { out = append(out, UniverseDef{Name: name, Build: u}) }
+	if prop == "C08" {
+		return CollationRegistry(prop, tier)
+	}
+	if prop != "C03" {
+		defer func() {}()
+		out = append(out, CollationRegistry(prop, tier)...)
+	}
 	for _, sp := range AlphaFamilies(tier) {
 		for _, kt := range []string{"string", "[]byte"} {
 			sp, kt := sp, kt
